@@ -8,8 +8,7 @@
   product (`applyEvaluationKey`, `relinearize`, `automorphism{,Hoisted,HoistedLazy}`).
 
   EXECUTABLE layer on `RPoly`: the digit decomposition exactly as coded (which RNS rows form a
-  group, the two different centring conventions of `DecomposeAndSplit`, the shift/mask digits,
-  and the degenerate `nbPi = 0` call made when the key has no `P`), the centred lift
+  group, the two different centring conventions of `DecomposeAndSplit`, the shift/mask digits), the centred lift
   `ModUpPtoQ`, and `ModDownQPtoQ`.
 
   Values are canonical (coefficient domain, reduced): the lazy-reduction schedule
@@ -158,7 +157,8 @@ def decomposeBits (qsP : List Nat) (w i j : Nat) (c : RPoly) : RPoly :=
 /-- the digit matrix consumed by `GadgetProductLazy` for a key with `nP` special primes, base `2^w`
     and row lengths `nJ` (the KEY's `BaseTwoDecompositionVectorSize`): dispatch exactly as coded —
     `levelP > 0` ⇒ `gadgetProductMultiplePLazy`, else `gadgetProductSinglePAndBitDecompLazy` with
-    `mask = 2^w − 1` (`mask = 0` ⇒ RNS digits via `DecomposeAndSplit(…, nbPi = levelP+1, …)`). -/
+    `mask = 2^w − 1` (`mask = 0` ⇒ RNS digits via `DecomposeAndSplit(…, nbPi = 1, …)`: one prime per digit,
+    also for a key without `P`; fix C04-2 — before the fix `nbPi = levelP+1`, i.e. `0` without `P`). -/
 def decompose (qsP : List Nat) (w : Nat) (nJ : List Nat) (c : RPoly) : List (List RPoly) :=
   let levelQ := c.qs.length - 1
   let nP := qsP.length
@@ -166,7 +166,7 @@ def decompose (qsP : List Nat) (w : Nat) (nJ : List Nat) (c : RPoly) : List (Lis
     (List.range (baseRNSDecompositionVectorSize levelQ nP)).map fun i => [decomposeRNS qsP nP i c]
   else
     (List.range (levelQ + 1)).map fun i =>
-      if 2 ^ w - 1 = 0 then List.replicate (nJ.getD i 0) (decomposeRNS qsP nP i c)
+      if 2 ^ w - 1 = 0 then List.replicate (nJ.getD i 0) (decomposeRNS qsP 1 i c)
       else (List.range (nJ.getD i 0)).map fun j => decomposeBits qsP w i j c
 
 /-- the digits `DecomposeNTT(levelQ, levelP, nbPi, c)` hands to the hoisted variants -/
